@@ -201,7 +201,6 @@ func VH_C09_K7_NewMirror() {
 	verifrt.Assert((err != nil) != (m != nil), "K7:NewMirror-returns-an-error-or-a-mirror")
 	if m != nil {
 		// "an instance that keeps running": it must answer a message
-		verifrt.Reach("newmirror-started")
 		ok := verifrt.NoPanic("K7:standalone-mirror-panics", func() {
 			m.HandlePrevoteProofs(context.Background(), tmconsensus.PrevoteSparseProof{Height: 1, Round: 0, PubKeyHash: "x",
 				Proofs: map[string][]gcrypto.SparseSignature{"A": {{KeyID: []byte{0, 0}, Sig: []byte("s")}}}})
